@@ -3,7 +3,7 @@
    Model.v (pointer-level ownership model: crew handle, MovedFrom state, manager carried by every block).
    The extracted model is run against the real containers on every ./check (T-cor). *)
 From Coq Require Import ZArith List Bool.
-From C14 Require Import PropagationModel Model Proofs Bodies BodiesProofs.
+From C14 Require Import PropagationModel Model Proofs Bodies BodiesProofs Crew.
 Import ListNotations.
 Local Open Scope Z_scope.
 
@@ -470,3 +470,63 @@ Theorem C14_table_copy_rebuilds_indexes :
     fresh_for m (next w) (next w') (sb_blocks (t_body t') ++ idx_blocks t').
 Proof. exact s_copy_table_spec. Qed.
 Print Assumptions C14_table_copy_rebuilds_indexes.
+
+(* ---- (10) round 4: the crew holds (traits, manager, version); pointer crew and inline crew ------------------------------ *)
+(* SetCrew::Swap exchanges the container traits in BOTH representations: the pointer crew exchanges the Data pointers
+   (traits, manager and version travel together), the inline crew (empty manager type, no versions) exchanges the traits
+   objects themselves. *)
+Theorem C14_swap_exchanges_traits :
+  (forall a b, pcrew_swap a b = (b, a)) /\
+  (forall ba da bb db, let (a', b') := pcrew_swap (PData ba da) (PData bb db) in
+     pcrew_traits a' = Some (cd_traits db) /\ pcrew_traits b' = Some (cd_traits da) /\
+     a' = PData bb db /\ b' = PData ba da) /\
+  (forall a b, let (a', b') := icrew_swap a b in ic_traits a' = ic_traits b /\ ic_traits b' = ic_traits a).
+Proof. exact swap_exchanges_traits. Qed.
+Print Assumptions C14_swap_exchanges_traits.
+
+(* inline-crew sets (HashSet / TreeSet with checkVersion = false and a stateless manager): after move assignment, copy
+   assignment and swap the target holds the SOURCE's traits and items and finds every one of its keys *)
+Theorem C14_inline_assign_takes_source_traits :
+  forall rebuild dst src, coherent src = true ->
+    ic_traits (is_crew (fst (iset_move_assign dst src))) = ic_traits (is_crew src) /\
+    is_items (fst (iset_move_assign dst src)) = is_items src /\
+    ic_traits (is_crew (iset_copy_assign rebuild dst src)) = ic_traits (is_crew src) /\
+    is_items (iset_copy_assign rebuild dst src) = is_items src /\
+    ic_traits (is_crew (fst (iset_swap dst src))) = ic_traits (is_crew src) /\
+    (forall v, In v (is_items src) -> iset_find (fst (iset_move_assign dst src)) v = true /\
+                                      iset_find (iset_copy_assign rebuild dst src) v = true /\
+                                      iset_find (fst (iset_swap dst src)) v = true).
+Proof. exact inline_assign_takes_source_traits. Qed.
+Print Assumptions C14_inline_assign_takes_source_traits.
+
+Theorem C14_inline_ops_keep_coherence :
+  forall rebuild a b, coherent a = true -> coherent b = true ->
+    coherent (fst (iset_move_ctor a)) = true /\ coherent (snd (iset_move_ctor a)) = true /\
+    coherent (fst (iset_swap a b)) = true /\ coherent (snd (iset_swap a b)) = true /\
+    coherent (fst (iset_move_assign a b)) = true /\ coherent (snd (iset_move_assign a b)) = true /\
+    coherent (iset_copy_assign rebuild a b) = true /\ coherent (iset_copy_ctor rebuild a) = true.
+Proof. exact inline_ops_keep_coherence. Qed.
+Print Assumptions C14_inline_ops_keep_coherence.
+
+(* the second-wave seeded shape (`if (std::is_empty<MemManager>::value) return;` in the inline crew's Swap): the traits are
+   never exchanged, so for any two sets with different traits swap / move assignment leave the target with the source's
+   body under its own old traits: incoherent, its keys cannot be found *)
+Theorem C14_inline_swap_seeded_refuted :
+  forall dst src v, ic_traits (is_crew dst) <> ic_traits (is_crew src) -> coherent src = true -> In v (is_items src) ->
+    let sw := icrew_swap_seeded true in
+    ic_traits (is_crew (fst (iset_swap_with sw dst src))) = ic_traits (is_crew dst) /\
+    coherent (fst (iset_swap_with sw dst src)) = false /\
+    coherent (fst (iset_move_assign_with sw dst src)) = false /\
+    iset_find (fst (iset_move_assign_with sw dst src)) v = false.
+Proof. exact inline_swap_seeded_refuted. Qed.
+Print Assumptions C14_inline_swap_seeded_refuted.
+
+Theorem C14_inline_swap_seeded_witness :
+  let a := mkIS (mkIC 1) 1 [3%nat] [10; 20; 30] in
+  let b := mkIS (mkIC 2) 2 [2%nat] [40; 50] in
+  iset_find (fst (iset_move_assign b a)) 20 = true /\ ic_traits (is_crew (fst (iset_move_assign b a))) = 1 /\
+  iset_find (fst (iset_move_assign_with (icrew_swap_seeded true) b a)) 20 = false /\
+  ic_traits (is_crew (fst (iset_move_assign_with (icrew_swap_seeded true) b a))) = 2 /\
+  icrew_swap_seeded false (mkIC 1) (mkIC 2) = (mkIC 2, mkIC 1).
+Proof. exact inline_swap_seeded_witness. Qed.
+Print Assumptions C14_inline_swap_seeded_witness.
